@@ -452,7 +452,3 @@ func (c *Clients) runHTTP(cc *plan.ClientConn, cr *ConnRecord, srv plan.ServerSp
 	cr.ClosedAt = c.S.Now()
 	tr.CloseIdleConnections()
 }
-
-func (c *Clients) runQUIC(cc *plan.ClientConn, cr *ConnRecord, srv plan.ServerSpec, ops []*OpRecord) {
-	cr.DialErr = "quic client not built yet"
-}
